@@ -12,7 +12,7 @@ is total on all ints (`lr`, `wt`, `dsi`, `dri`) an additional `_total` theorem q
 The cuts are listed in `harness/fnspecs/deppdu.py` and in the doc comments of `Gen/FnDepPdu.lean`.
 -/
 namespace NfcVerif.FnBridge.DepPdu
-open NfcVerif NfcVerif.PyFn NfcVerif.NfcDep
+open NfcVerif NfcVerif.PyFn NfcVerif.NfcDep NfcVerif.DepPduRef
 
 /-! ## `ATR_REQ_RES.lr`, `ATR_RES.wt`, `__len__` -/
 
@@ -104,6 +104,218 @@ theorem atr_res_encode_activate (nfcid3 gb : Bytes) (to pp : Nat) (ht : to < 256
 example : Gen.Fn.dep_atr_req_encode [1, 2, 3, 4, 5, 6, 7, 8, 9, 10] 0 0 0 0x32 [0x46, 0x66, 0x6D]
     = .ok [0xD4, 0, 1, 2, 3, 4, 5, 6, 7, 8, 9, 10, 0, 0, 0, 0x32, 0x46, 0x66, 0x6D] := by decide +kernel
 example : Gen.Fn.dep_atr_res_encode [] 0 0 0 256 0 [] = .error .value := by decide +kernel
+
+/-! ## `ATR_REQ.decode`, `ATR_RES.decode` -/
+
+theorem and_two (pp : Nat) : pp &&& 2 = 2 * (pp / 2 % 2) := by
+  have h1 : (pp &&& 2) / 2 = pp / 2 % 2 := by
+    rw [Nat.and_div_two]; exact and1 (pp / 2)
+  have h2 : (pp &&& 2) % 2 = 0 := by
+    have := @Nat.and_mod_two_pow pp 2 1
+    simp only [Nat.pow_one, Nat.mod_self, Nat.and_zero] at this
+    exact this
+  omega
+
+/-- `ATR_REQ.decode` on a frame that starts with `D4 00`: `ProtocolError` below 16 octets, else the fields -/
+theorem atr_req_decode_bridge (d : Bytes) :
+    Gen.Fn.dep_atr_req_decode (0xD4 :: 0x00 :: d)
+      = if d.length < 14 then .error .protocol
+        else .ok (some (d.take 10, ((d.drop 10).headD 0 : Nat), ((d.drop 11).headD 0 : Nat), ((d.drop 12).headD 0 : Nat),
+                        ((d.drop 13).headD 0 : Nat),
+                        if (d.drop 13).headD 0 &&& 2 ≠ 0 then d.drop 14 else [])) := by
+  unfold Gen.Fn.dep_atr_req_decode
+  have hp : List.isPrefixOf [212, 0] (0xD4 :: 0x00 :: d) = true := by simp [List.isPrefixOf]
+  rw [if_pos hp]
+  by_cases h : d.length < 14
+  · have : PyFn.len (0xD4 :: 0x00 :: d) < 16 := by simp [len_eq]; omega
+    rw [if_pos this, if_pos h]
+  · have : ¬ PyFn.len (0xD4 :: 0x00 :: d) < 16 := by simp [len_eq]; omega
+    rw [if_neg this, if_neg h]
+    have h14 : 14 ≤ d.length := by omega
+    have s1 : slice (0xD4 :: 0x00 :: d) 2 12 = d.take 10 := by
+      have := slice_nat (0xD4 :: 0x00 :: d) 2 12; simpa using this
+    have s2 : slice (0xD4 :: 0x00 :: d) 12 16 = (d.drop 10).take 4 := by
+      have := slice_nat (0xD4 :: 0x00 :: d) 12 16; simpa using this
+    have s3 : PyFn.sliceFrom (0xD4 :: 0x00 :: d) 16 = d.drop 14 := by
+      have := sliceFrom_ofNat (0xD4 :: 0x00 :: d) 16; simpa using this
+    simp only [s1, s2, s3]
+    match d, h14 with
+    | n0 :: n1 :: n2 :: n3 :: n4 :: n5 :: n6 :: n7 :: n8 :: n9 :: did :: bs :: br :: pp :: gb, _ =>
+      simp only [List.drop_succ_cons, List.drop_zero, List.take_succ_cons, List.take_zero, len_eq, List.length_cons,
+        List.length_nil, getB_zero, getB_one, getB_two, getB_three, List.headD_cons, Py.bind_ok]
+      have e : band (pp : Int) 2 = ((pp &&& 2 : Nat) : Int) := by
+        rw [show (2 : Int) = ((2 : Nat) : Int) from rfl, band_ofNat]
+      simp [e]
+
+
+/-- `ATR_RES.decode` on a frame that starts with `D5 01`: `ProtocolError` below 17 octets, else the fields -/
+theorem atr_res_decode_bridge (d : Bytes) :
+    Gen.Fn.dep_atr_res_decode (0xD5 :: 0x01 :: d)
+      = if d.length < 15 then .error .protocol
+        else .ok (some (d.take 10, ((d.drop 10).headD 0 : Nat), ((d.drop 11).headD 0 : Nat), ((d.drop 12).headD 0 : Nat),
+                        ((d.drop 13).headD 0 : Nat), ((d.drop 14).headD 0 : Nat),
+                        if (d.drop 14).headD 0 &&& 2 ≠ 0 then d.drop 15 else [])) := by
+  unfold Gen.Fn.dep_atr_res_decode
+  have hp : List.isPrefixOf [213, 1] (0xD5 :: 0x01 :: d) = true := by simp [List.isPrefixOf]
+  rw [if_pos hp]
+  by_cases h : d.length < 15
+  · have : PyFn.len (0xD5 :: 0x01 :: d) < 17 := by simp [len_eq]; omega
+    rw [if_pos this, if_pos h]
+  · have : ¬ PyFn.len (0xD5 :: 0x01 :: d) < 17 := by simp [len_eq]; omega
+    rw [if_neg this, if_neg h]
+    have h15 : 15 ≤ d.length := by omega
+    have s1 : slice (0xD5 :: 0x01 :: d) 2 12 = d.take 10 := by
+      have := slice_nat (0xD5 :: 0x01 :: d) 2 12; simpa using this
+    have s2 : slice (0xD5 :: 0x01 :: d) 12 17 = (d.drop 10).take 5 := by
+      have := slice_nat (0xD5 :: 0x01 :: d) 12 17; simpa using this
+    have s3 : PyFn.sliceFrom (0xD5 :: 0x01 :: d) 17 = d.drop 15 := by
+      have := sliceFrom_ofNat (0xD5 :: 0x01 :: d) 17; simpa using this
+    simp only [s1, s2, s3]
+    match d, h15 with
+    | n0 :: n1 :: n2 :: n3 :: n4 :: n5 :: n6 :: n7 :: n8 :: n9 :: did :: bs :: br :: to :: pp :: gb, _ =>
+      have g4 : getB [did, bs, br, to, pp] 4 = .ok (pp : Int) := by
+        have := getB_ofNat [did, bs, br, to, pp] 4; simpa using this
+      simp only [List.drop_succ_cons, List.drop_zero, List.take_succ_cons, List.take_zero, len_eq, List.length_cons,
+        List.length_nil, getB_zero, getB_one, getB_two, getB_three, g4, List.headD_cons, Py.bind_ok]
+      have e : band (pp : Int) 2 = ((pp &&& 2 : Nat) : Int) := by
+        rw [show (2 : Int) = ((2 : Nat) : Int) from rfl, band_ofNat]
+      simp [e]
+
+/-- a frame of another class is not decoded -/
+theorem atr_decode_other (data : Bytes) :
+    (List.isPrefixOf [0xD4, 0x00] data = false → Gen.Fn.dep_atr_req_decode data = .ok none)
+    ∧ (List.isPrefixOf [0xD5, 0x01] data = false → Gen.Fn.dep_atr_res_decode data = .ok none) := by
+  unfold Gen.Fn.dep_atr_req_decode Gen.Fn.dep_atr_res_decode
+  constructor <;> intro h <;> simp [h]
+
+/-- C04 / C07 codec (`NfcDep.decodeFrameAux`, `Peer.frameBody true`): an ATR body `d` behind the code octets is
+accepted iff the regenerated `decode` of the class accepts the frame - `ProtocolError` for a short one -/
+theorem atr_decode_model (d : Bytes) :
+    ((if d.length < 14 then (.error .protocol : Py Pdu) else .ok (.atr d))
+        = Gen.Fn.dep_atr_req_decode (0xD4 :: 0x00 :: d) >>= fun r =>
+            match r with | none => .error .attr | some _ => .ok (.atr d))
+    ∧ ((if d.length < 15 then (.error .protocol : Py Pdu) else .ok (.atr d))
+        = Gen.Fn.dep_atr_res_decode (0xD5 :: 0x01 :: d) >>= fun r =>
+            match r with | none => .error .attr | some _ => .ok (.atr d)) := by
+  rw [atr_req_decode_bridge, atr_res_decode_bridge]
+  constructor <;> split <;> rfl
+
+/-- C07 (`dep_decode_total`): whatever octets follow the code, `decode` raises nothing but `ProtocolError` -/
+theorem gen_atr_decode_safe (d : Bytes) :
+    Safe (fun e => e = .protocol) (Gen.Fn.dep_atr_req_decode (0xD4 :: 0x00 :: d))
+    ∧ Safe (fun e => e = .protocol) (Gen.Fn.dep_atr_res_decode (0xD5 :: 0x01 :: d)) := by
+  rw [atr_req_decode_bridge, atr_res_decode_bridge]
+  constructor <;> intro e he <;> split at he <;> first | (cases he; rfl) | cases he
+
+/-- what `activate()` reads from a decoded ATR (C07 `Peer.atrFields`): DID, `lr` (through the regenerated property)
+and the general bytes, for a body of sufficient length -/
+theorem atr_req_fields_peer (d : Bytes) (h : 14 ≤ d.length) :
+    Peer.atrFields true d
+      = Gen.Fn.dep_atr_req_decode (0xD4 :: 0x00 :: d) >>= fun r =>
+          match r with
+          | none => .error .attr
+          | some (_, did, _, _, pp, gb) => Gen.Fn.dep_atr_lr pp >>= fun lr => .ok (0, lr.toNat, did.toNat, gb) := by
+  rw [atr_req_decode_bridge, if_neg (by omega)]
+  match d, h with
+  | n0 :: n1 :: n2 :: n3 :: n4 :: n5 :: n6 :: n7 :: n8 :: n9 :: did :: bs :: br :: pp :: gb, _ =>
+    simp only [Peer.atrFields, idxN, List.drop_succ_cons, List.drop_zero, List.headD_cons, Py.bind_ok,
+      atr_lr_bridge, Int.toNat_natCast, if_true, List.getElem?_cons_succ, List.getElem?_cons_zero]
+    have e2 : (pp &&& 2 ≠ 0) ↔ (pp / 2 % 2 = 1) := by
+      have := and_two pp
+      omega
+    simp only [e2]
+
+
+theorem atr_res_fields_peer (d : Bytes) (h : 15 ≤ d.length) :
+    Peer.atrFields false d
+      = Gen.Fn.dep_atr_res_decode (0xD5 :: 0x01 :: d) >>= fun r =>
+          match r with
+          | none => .error .attr
+          | some (_, did, _, _, to, pp, gb) =>
+            Gen.Fn.dep_atr_lr pp >>= fun lr => .ok ((Gen.Fn.dep_atr_res_wt to).toNat, lr.toNat, did.toNat, gb) := by
+  rw [atr_res_decode_bridge, if_neg (by omega)]
+  match d, h with
+  | n0 :: n1 :: n2 :: n3 :: n4 :: n5 :: n6 :: n7 :: n8 :: n9 :: did :: bs :: br :: to :: pp :: gb, _ =>
+    have i14 : idxN (n0 :: n1 :: n2 :: n3 :: n4 :: n5 :: n6 :: n7 :: n8 :: n9 :: did :: bs :: br :: to :: pp :: gb) 14
+        = .ok pp := rfl
+    have i13 : idxN (n0 :: n1 :: n2 :: n3 :: n4 :: n5 :: n6 :: n7 :: n8 :: n9 :: did :: bs :: br :: to :: pp :: gb) 13
+        = .ok to := rfl
+    have i10 : idxN (n0 :: n1 :: n2 :: n3 :: n4 :: n5 :: n6 :: n7 :: n8 :: n9 :: did :: bs :: br :: to :: pp :: gb) 10
+        = .ok did := rfl
+    simp only [Peer.atrFields, i14, i13, i10, List.drop_succ_cons, List.drop_zero, List.headD_cons, Py.bind_ok,
+      atr_lr_bridge, atr_res_wt_bridge, Int.toNat_natCast, Bool.false_eq_true, if_false]
+    have e2 : (pp &&& 2 ≠ 0) ↔ (pp / 2 % 2 = 1) := by
+      have := and_two pp
+      omega
+    simp only [e2]
+
+/-- C19 (`Activate.decodeAtrReq` inside `targetSide`): on a frame of at least 16 octets the model's decoder is the
+regenerated one (a frame with other code octets: `decode` returns None, the first attribute access raises) -/
+theorem atr_req_decode_activate (data : Bytes) (h : 16 ≤ data.length) :
+    Activate.decodeAtrReq data
+      = Gen.Fn.dep_atr_req_decode data >>= fun r =>
+          match r with
+          | none => .error .attr
+          | some (n, did, _, _, pp, gb) => .ok ⟨n, did.toNat, pp.toNat, gb⟩ := by
+  match data, h with
+  | c0 :: c1 :: n0 :: n1 :: n2 :: n3 :: n4 :: n5 :: n6 :: n7 :: n8 :: n9 :: did :: bs :: br :: pp :: gb, _ =>
+    by_cases hc : c0 = 0xD4 ∧ c1 = 0x00
+    · obtain ⟨rfl, rfl⟩ := hc
+      rw [atr_req_decode_bridge, if_neg (by simp)]
+      simp [Activate.decodeAtrReq]
+    · have hp : List.isPrefixOf [212, 0] (c0 :: c1 :: n0 :: n1 :: n2 :: n3 :: n4 :: n5 :: n6 :: n7 :: n8 :: n9 :: did :: bs :: br :: pp :: gb) = false := by
+        simp only [List.isPrefixOf, Bool.and_true, Bool.and_eq_false_imp, beq_iff_eq, beq_eq_false_iff_ne, ne_eq]
+        intro h0; subst h0; intro h1; exact hc ⟨rfl, h1.symm⟩
+      rw [(atr_decode_other _).1 hp]
+      have : List.take 2 (c0 :: c1 :: n0 :: n1 :: n2 :: n3 :: n4 :: n5 :: n6 :: n7 :: n8 :: n9 :: did :: bs :: br :: pp :: gb) ≠ [0xD4, 0x00] := by
+        simp only [List.take_succ_cons, List.take_zero, ne_eq, List.cons.injEq, and_true]
+        exact hc
+      simp [Activate.decodeAtrReq]
+      intro a b; exact hc ⟨a, b⟩
+
+theorem atr_res_decode_activate (data : Bytes) (h : 17 ≤ data.length) :
+    Activate.decodeAtrRes data
+      = Gen.Fn.dep_atr_res_decode data >>= fun r =>
+          match r with
+          | none => .error .attr
+          | some (n, _, _, _, to, pp, gb) => .ok ⟨n, to.toNat, pp.toNat, gb⟩ := by
+  match data, h with
+  | c0 :: c1 :: d, h' =>
+    have h15 : 15 ≤ d.length := by simp at h'; omega
+    match d, h15 with
+    | n0 :: n1 :: n2 :: n3 :: n4 :: n5 :: n6 :: n7 :: n8 :: n9 :: did :: bs :: br :: to :: pp :: gb, _ =>
+      by_cases hc : c0 = 0xD5 ∧ c1 = 0x01
+      · obtain ⟨rfl, rfl⟩ := hc
+        rw [atr_res_decode_bridge, if_neg (by simp)]
+        simp [Activate.decodeAtrRes]
+      · have hp : List.isPrefixOf [213, 1] (c0 :: c1 :: n0 :: n1 :: n2 :: n3 :: n4 :: n5 :: n6 :: n7 :: n8 :: n9 :: did :: bs :: br :: to :: pp :: gb) = false := by
+          simp only [List.isPrefixOf, Bool.and_true, Bool.and_eq_false_imp, beq_iff_eq, beq_eq_false_iff_ne, ne_eq]
+          intro h0; subst h0; intro h1; exact hc ⟨rfl, h1.symm⟩
+        rw [(atr_decode_other _).2 hp]
+        simp [Activate.decodeAtrRes]
+        intro a b; exact hc ⟨a, b⟩
+
+/-- on a SHORT frame the C19 model `Activate.decodeAtrReq` still shows the behaviour before fixes/C07 (`ValueError` of
+the tuple unpacking) while the source raises `ProtocolError`.  No flow of `Activate.activate` produces such a frame
+(both ATRs come from the encoders bridged above); the C04/C07 models have the repaired behaviour (`atr_decode_model`) -/
+theorem atr_decode_short_model_differs :
+    Activate.decodeAtrReq [0xD4, 0, 1] = .error .value ∧ Gen.Fn.dep_atr_req_decode [0xD4, 0, 1] = .error .protocol :=
+  ⟨rfl, rfl⟩
+
+/-- encode then decode: the ATR_REQ `Initiator.activate` sends is read back field by field -/
+theorem atr_req_roundtrip (nfcid3 gb : Bytes) (did pp : Nat) (hn : nfcid3.length = 10) (hd : did < 256) (hp : pp < 256) :
+    (Gen.Fn.dep_atr_req_encode nfcid3 (did : Int) 0 0 (pp : Int) gb >>= Gen.Fn.dep_atr_req_decode)
+      = .ok (some (nfcid3, (did : Int), 0, 0, (pp : Int), if pp &&& 2 ≠ 0 then gb else [])) := by
+  rw [atr_req_encode_activate nfcid3 gb did pp hd hp, Py.bind_ok]
+  unfold Activate.atrReq
+  have e : [0xD4, 0x00] ++ nfcid3 ++ [did, 0, 0, pp] ++ gb = 0xD4 :: 0x00 :: (nfcid3 ++ [did, 0, 0, pp] ++ gb) := by simp
+  rw [e, atr_req_decode_bridge, if_neg (by simp [hn]; omega)]
+  match nfcid3, hn with
+  | [n0, n1, n2, n3, n4, n5, n6, n7, n8, n9], _ => simp
+
+example : Gen.Fn.dep_atr_req_decode [0xD4, 0, 1, 2, 3, 4, 5, 6, 7, 8, 9, 10, 7, 0, 0, 0x32, 0x46]
+    = .ok (some ([1, 2, 3, 4, 5, 6, 7, 8, 9, 10], 7, 0, 0, 0x32, [0x46])) := by rfl
+example : Gen.Fn.dep_atr_res_decode [0xD5, 1, 1, 2, 3] = .error .protocol := by rfl
 
 /-! ## `PSL_REQ`, `PSL_RES` -/
 
@@ -289,6 +501,186 @@ theorem gen_dsl_decode_safe (data : Bytes) :
 example : Gen.Fn.dep_dsl_req_decode [0xD4, 0x08, 5] = .ok (some (some 5)) := by decide +kernel
 example : Gen.Fn.dep_rls_res_decode [0xD5, 0x0B, 5, 6] = .error .protocol := by decide +kernel
 example : Gen.Fn.dep_rls_res_decode [0xD5, 0x09, 5] = .ok none := by decide +kernel
+
+/-! ## `DEP_REQ_RES.decode` as inherited by DEP_REQ, DEP_RES -/
+
+/-- a single bit: `x & 2^k = 2^k * (x / 2^k % 2)` -/
+theorem and_bit (x k : Nat) : x &&& 2 ^ k = 2 ^ k * (x / 2 ^ k % 2) := by
+  have hp : 0 < 2 ^ k := Nat.two_pow_pos k
+  have h1 : (x &&& 2 ^ k) / 2 ^ k = x / 2 ^ k % 2 := by
+    rw [Nat.and_div_two_pow, Nat.div_self hp]; exact and1 _
+  have h2 : (x &&& 2 ^ k) % 2 ^ k = 0 := by
+    rw [Nat.and_mod_two_pow, Nat.mod_self, Nat.and_zero]
+  have := Nat.div_add_mod (x &&& 2 ^ k) (2 ^ k)
+  rw [h1, h2] at this
+  omega
+
+theorem and_bit_ne (x k : Nat) : (x &&& 2 ^ k ≠ 0) ↔ (x / 2 ^ k % 2 = 1) := by
+  rw [and_bit]
+  have hp : 0 < 2 ^ k := Nat.two_pow_pos k
+  rcases Nat.mod_two_eq_zero_or_one (x / 2 ^ k) with h | h
+  · simp [h]
+  · rw [h]; simp
+
+theorem band8_ne (x : Nat) : (band (x : Int) 8 ≠ 0) ↔ (x / 8 % 2 = 1) := by
+  rw [show (8 : Int) = ((8 : Nat) : Int) from rfl, band_ofNat]
+  have := and_bit_ne x 3
+  simp only [Nat.reducePow] at this
+  rw [← this]; omega
+
+theorem band4_ne (x : Nat) : (band (x : Int) 4 ≠ 0) ↔ (x / 4 % 2 = 1) := by
+  rw [show (4 : Int) = ((4 : Nat) : Int) from rfl, band_ofNat]
+  have := and_bit_ne x 2
+  simp only [Nat.reducePow] at this
+  rw [← this]; omega
+
+set_option linter.unusedSimpArgs false in
+set_option linter.unusedVariables false in
+theorem dep_decode_core (d : Bytes) :
+    (wrapExc (fun e => e == Exc.index) Exc.protocol
+       (PyFn.pop0 d >>= fun (t1, data_2) =>
+        let pfb := t1
+        let pfb_1 := ((PyFn.shr pfb 4), (decide ((PyFn.band pfb 8) ≠ 0)), (decide ((PyFn.band pfb 4) ≠ 0)), (PyFn.band pfb 3))
+        (if (pfb_1.2.2.1 = true) then
+           (PyFn.pop0 data_2 >>= fun (t2, data_3) =>
+            Except.ok (let did := t2
+             ((some did), data_3)))
+         else
+         Except.ok (let did_1 := ()
+          ((none : (Option Int)), data_2))) >>= fun (did_2, data_4) =>
+        (if (pfb_1.2.1 = true) then
+           (PyFn.pop0 data_4 >>= fun (t3, data_5) =>
+            Except.ok (let nad := t3
+             ((some nad), data_5)))
+         else
+         Except.ok (let nad_1 := ()
+          ((none : (Option Int)), data_4))) >>= fun (nad_2, data_6) =>
+        Except.ok (pfb_1, data_6, did_2, nad_2)) >>= fun (pfb_2, data_7, did_3, nad_3) =>
+     Except.ok ((some (pfb_2, did_3, nad_3, data_7)))) >>= depOfRec
+    = decodeDep d := by
+  unfold decodeDep
+  match d with
+  | [] => simp [pop0, wrapExc]
+  | pfb :: r1 =>
+    have e8 := band8_ne pfb
+    have e4 := band4_ne pfb
+    have es : PyFn.shr (pfb : Int) 4 = ((pfb / 16 : Nat) : Int) := by
+      rw [show (4 : Int) = ((4 : Nat) : Int) from rfl, shr_ofNat, Nat.shiftRight_eq_div_pow]
+    have e3 : PyFn.band (pfb : Int) 3 = ((pfb % 4 : Nat) : Int) := by
+      rw [show (3 : Int) = ((3 : Nat) : Int) from rfl, band_ofNat, and3]
+    simp only [pop0, Py.bind_ok, es, e3, e8, e4, decide_eq_true_eq]
+    by_cases hd : pfb / 4 % 2 = 1 <;> by_cases hn : pfb / 8 % 2 = 1
+    · match r1 with
+      | [] => simp [hd, hn, pop0, wrapExc]
+      | [x] => simp [hd, hn, pop0, wrapExc]
+      | x :: y :: r => simp [hd, hn, pop0, wrapExc, depOfRec]; omega
+    · match r1 with
+      | [] => simp [hd, hn, pop0, wrapExc]
+      | x :: r => simp [hd, hn, pop0, wrapExc, depOfRec]; omega
+    · match r1 with
+      | [] => simp [hd, hn, pop0, wrapExc]
+      | x :: r => simp [hd, hn, pop0, wrapExc, depOfRec]; omega
+    · simp [hd, hn, wrapExc, depOfRec]; omega
+
+
+/-- the C04/C07 model decoder `decodeDep` (applied by `decodeFrame` behind the code check, `d` = frame without the two
+code octets) is the regenerated `decode` of DEP_REQ / DEP_RES: PFB split into type, NAD flag, DID flag, PNI; DID then
+NAD octet when flagged; a missing octet (`IndexError` of `data.pop(0)`) is a `ProtocolError` -/
+theorem dep_decode_bridge (d : Bytes) :
+    (decodeDep d = Gen.Fn.dep_dep_req_decode (0xD4 :: 0x06 :: d) >>= depOfRec)
+    ∧ (decodeDep d = Gen.Fn.dep_dep_res_decode (0xD5 :: 0x07 :: d) >>= depOfRec) := by
+  unfold Gen.Fn.dep_dep_req_decode Gen.Fn.dep_dep_res_decode
+  have p1 : List.isPrefixOf [212, 6] (0xD4 :: 0x06 :: d) = true := by simp [List.isPrefixOf]
+  have p2 : List.isPrefixOf [213, 7] (0xD5 :: 0x07 :: d) = true := by simp [List.isPrefixOf]
+  have d1 : PyFn.delSlice (0xD4 :: 0x06 :: d) 0 2 = d := by
+    have := delSlice_zero_nat (0xD4 :: 0x06 :: d) 2; simpa using this
+  have d2 : PyFn.delSlice (0xD5 :: 0x07 :: d) 0 2 = d := by
+    have := delSlice_zero_nat (0xD5 :: 0x07 :: d) 2; simpa using this
+  rw [if_pos p1, if_pos p2]
+  simp only [d1, d2]
+  exact ⟨(dep_decode_core d).symm, (dep_decode_core d).symm⟩
+
+/-- a frame of another class is not decoded: `decode` returns None -/
+theorem dep_decode_other (data : Bytes) :
+    (List.isPrefixOf [0xD4, 0x06] data = false → Gen.Fn.dep_dep_req_decode data = .ok none)
+    ∧ (List.isPrefixOf [0xD5, 0x07] data = false → Gen.Fn.dep_dep_res_decode data = .ok none) := by
+  unfold Gen.Fn.dep_dep_req_decode Gen.Fn.dep_dep_res_decode
+  constructor <;> intro h <;> simp [h]
+
+/-- C07 (`dep_decode_total`): whatever octets follow the code, DEP `decode` raises nothing but `ProtocolError` /
+`TransmissionError` (`Peer.FrameErr`) -/
+theorem gen_dep_decode_safe (d : Bytes) :
+    Safe Peer.FrameErr (Gen.Fn.dep_dep_req_decode (0xD4 :: 0x06 :: d))
+    ∧ Safe Peer.FrameErr (Gen.Fn.dep_dep_res_decode (0xD5 :: 0x07 :: d)) := by
+  obtain ⟨h1, h2⟩ := dep_decode_bridge d
+  constructor
+  · intro e he
+    rw [he] at h1
+    exact Peer.decodeDep_safe d e h1
+  · intro e he
+    rw [he] at h2
+    exact Peer.decodeDep_safe d e h2
+
+example : Gen.Fn.dep_dep_req_decode [0xD4, 0x06, 0x05, 7, 1, 2] = .ok (some ((0, false, true, 1), some 7, none, [1, 2])) := by rfl
+example : Gen.Fn.dep_dep_res_decode [0xD5, 0x07, 0x4C, 7] = .error .protocol := by rfl
+
+/-! ## the dispatch of `decode_frame` with the regenerated PDU decoders -/
+
+set_option linter.unusedSimpArgs false in
+/-- the dispatch + model decoders of group Dep (`FnBridge.Dep.tail`, the continuation in
+`initiator_decode_frame_bridge` / `target_decode_frame_bridge`) is the dispatch + REGENERATED decoders, on every frame
+whose first code octet is the one `decode_frame` has checked -/
+theorem tail_eq_genTail (req : Bool) (c1 : Nat) (d : Bytes) :
+    FnBridge.Dep.tail req ((if req then 0xD4 else 0xD5) :: c1 :: d) = genTail req ((if req then 0xD4 else 0xD5) :: c1 :: d) := by
+  unfold FnBridge.Dep.tail genTail
+  cases req with
+  | true =>
+    by_cases h6 : c1 = 6
+    · subst h6
+      simp only [↓reduceIte, Nat.reduceEqDiff, Nat.reduceSub, Bool.false_eq_true, Bool.not_true, false_and, not_true_eq_false]
+      exact (dep_decode_bridge d).1
+    · by_cases h8 : c1 = 8
+      · subst h8
+        simp only [↓reduceIte, Nat.reduceEqDiff, Nat.reduceSub, Bool.false_eq_true, Bool.not_true, false_and, not_true_eq_false]
+        exact (dsl_decode_bridge d).1
+      · by_cases h10 : c1 = 10
+        · subst h10
+          simp only [↓reduceIte, Nat.reduceEqDiff, Nat.reduceSub, Bool.false_eq_true, Bool.not_true, false_and, not_true_eq_false]
+          exact (dsl_decode_bridge d).2.2.1
+        · by_cases h0 : c1 = 0
+          · subst h0
+            simp only [↓reduceIte, Nat.reduceEqDiff, Nat.reduceSub, Bool.false_eq_true, Bool.not_true, false_and, not_true_eq_false]
+            exact (atr_decode_model d).1
+          · by_cases h4 : c1 = 4
+            · subst h4; simp
+            · simp [h0, h4, h6, h8, h10]
+  | false =>
+    by_cases hz : c1 = 0
+    · subst hz; simp
+    · by_cases h7 : c1 = 7
+      · subst h7
+        simp only [↓reduceIte, Nat.reduceEqDiff, Nat.reduceSub, Bool.false_eq_true, Bool.not_false, true_and, not_false_eq_true]
+        exact (dep_decode_bridge d).2
+      · by_cases h9 : c1 = 9
+        · subst h9
+          simp only [↓reduceIte, Nat.reduceEqDiff, Nat.reduceSub, Bool.false_eq_true, Bool.not_false, true_and, not_false_eq_true]
+          exact (dsl_decode_bridge d).2.1
+        · by_cases h11 : c1 = 11
+          · subst h11
+            simp only [↓reduceIte, Nat.reduceEqDiff, Nat.reduceSub, Bool.false_eq_true, Bool.not_false, true_and, not_false_eq_true]
+            exact (dsl_decode_bridge d).2.2.2
+          · by_cases h1 : c1 = 1
+            · subst h1
+              simp only [↓reduceIte, Nat.reduceEqDiff, Nat.reduceSub, Bool.false_eq_true, Bool.not_false, true_and, not_false_eq_true]
+              exact (atr_decode_model d).2
+            · by_cases h5 : c1 = 5
+              · subst h5; simp
+              · have e6 : ¬ c1 - 1 = 6 := by omega
+                have e8 : ¬ c1 - 1 = 8 := by omega
+                have e10 : ¬ c1 - 1 = 10 := by omega
+                have e0 : ¬ c1 - 1 = 0 := by omega
+                have e4 : ¬ c1 - 1 = 4 := by omega
+                simp [hz, h1, h5, h7, h9, h11, e6, e8, e10, e0, e4]
 
 /-! ## `Initiator.activate`: option clamps, PP / DID octets, PSL_REQ, `wt`, `miu` -/
 
@@ -687,6 +1079,140 @@ theorem fmt_tests_bridge (fmt : Nat) :
 example : Gen.Fn.dep_ini_ack_chk [] 4 = .error .protocol := by decide +kernel
 example : Gen.Fn.dep_ini_ack_chk [1] 4 = .ok () := by decide +kernel
 example : Gen.Fn.dep_ini_atn_chk 8 = .ok () := by decide +kernel
+
+/-- `request_retransmission` (`NfcDep.reqRetrans`, repaired variant F27): RTOX -> ProtocolError; accepted are INF
+PDUs and, when the outstanding request was chained (`req.pfb.fmt == MoreInformation`), an ACK -/
+theorem ini_retrans_chk_bridge (fmt reqfmt : Nat) :
+    Gen.Fn.dep_ini_retrans_chk (fmt : Int) (reqfmt : Int)
+      = if fmt = fTOX then .error .protocol
+        else if fmt = fINF ∨ fmt = fMORE ∨ (reqfmt = fMORE ∧ fmt = fACK) then .ok ()
+        else .error .protocol := by
+  unfold Gen.Fn.dep_ini_retrans_chk fTOX fINF fMORE fACK
+  have e9 : ((fmt : Int) = 9) ↔ fmt = 9 := by omega
+  have e1 : ((reqfmt : Int) = 1) ↔ reqfmt = 1 := by omega
+  simp only [e9, e1]
+  by_cases h9 : fmt = 9
+  · simp [h9]
+  · rw [if_neg h9, if_neg h9]
+    by_cases hr : reqfmt = 1
+    · simp only [hr, if_true, true_and]
+      have : ((fmt : Int) ∈ ([0, 1] ++ [4] : List Int)) ↔ (fmt = 0 ∨ fmt = 1 ∨ fmt = 4) := by
+        simp only [List.cons_append, List.nil_append, List.mem_cons, List.not_mem_nil, or_false]; omega
+      simp only [this]
+      by_cases hm : (fmt = 0 ∨ fmt = 1 ∨ fmt = 4) <;> simp [hm]
+    · simp only [hr, if_false, false_and, or_false]
+      have : ((fmt : Int) ∈ ([0, 1] : List Int)) ↔ (fmt = 0 ∨ fmt = 1) := by
+        simp only [List.mem_cons, List.not_mem_nil, or_false]; omega
+      simp only [this]
+      by_cases hm : (fmt = 0 ∨ fmt = 1) <;> simp [hm]
+
+/-- Target send loop (`NfcDep.tAccept`, `.sending`: `if sd.length > c.tmiu ∧ fmt ≠ fACK then die .protocol`) -/
+theorem tgt_ack_chk_bridge (more : Bool) (fmt : Nat) :
+    Gen.Fn.dep_tgt_ack_chk more (fmt : Int) = if more = true ∧ fmt ≠ fACK then .error .protocol else .ok () := by
+  unfold Gen.Fn.dep_tgt_ack_chk fACK
+  have e4 : ((fmt : Int) ≠ 4) ↔ fmt ≠ 4 := by omega
+  simp only [e4]
+  cases more <;> by_cases h : fmt = 4 <;> simp [h]
+
+/-- one turn of the Target's send loop once the request `(fmt, rp)` is in: ACK check (when more data follows),
+packet number increment, packet number check - the order of `NfcDep.tAccept` -/
+theorem tgt_send_step_bridge (more : Bool) (pni fmt rp : Nat) :
+    (Gen.Fn.dep_tgt_ack_chk more (fmt : Int) >>= fun _ => Gen.Fn.dep_tgt_pni_send (pni : Int) (rp : Int))
+      = if more = true ∧ fmt ≠ fACK then .error .protocol
+        else if rp ≠ (pni + 1) % 4 then .error .protocol
+        else .ok (((pni + 1) % 4 : Nat) : Int) := by
+  rw [tgt_ack_chk_bridge, (tgt_pni_bridge pni rp).1]
+  split <;> rfl
+
+example : Gen.Fn.dep_ini_retrans_chk 4 1 = .ok () := by decide +kernel
+example : Gen.Fn.dep_ini_retrans_chk 4 0 = .error .protocol := by decide +kernel
+
+/-! ## one turn of the Initiator's loops = the regenerated checks in source order -/
+
+/-- send loop of `Initiator.exchange` once the response `(fmt, rp)` is in: ACK check, packet number check,
+increment - the three `if`s of `NfcDep.sendLoop` in the same order (`rest` = what is left to send) -/
+theorem ini_send_step_bridge (rest : Bytes) (pni fmt rp : Nat) :
+    (Gen.Fn.dep_ini_ack_chk rest (fmt : Int) >>= fun _ => Gen.Fn.dep_ini_pni_send (pni : Int) (rp : Int))
+      = if fmt = fACK ∧ rest = [] then .error .protocol
+        else if rp ≠ pni then .error .protocol
+        else .ok (((pni + 1) % 4 : Nat) : Int) := by
+  rw [ini_ack_chk_bridge, ini_pni_send_bridge]
+  split <;> rfl
+
+/-- receive loop of `Initiator.exchange`: chaining check, packet number check, append, increment
+(`NfcDep.recvLoop`) -/
+theorem ini_recv_step_bridge (acc data : Bytes) (pni fmt rp : Nat) :
+    (Gen.Fn.dep_ini_chain_chk (fmt : Int) >>= fun _ => Gen.Fn.dep_ini_pni_recv acc (pni : Int) (rp : Int) data)
+      = if fmt ≠ fINF ∧ fmt ≠ fMORE then .error .protocol
+        else if rp ≠ pni then .error .protocol
+        else .ok (acc ++ data, (((pni + 1) % 4 : Nat) : Int)) := by
+  rw [(ini_inf_chk_bridge fmt).2, ini_pni_recv_bridge]
+  split <;> rfl
+
+/-! ## duplicate detection of the Target (`send_dep_res_recv_dep_req`) against `Model/FnDepPduRef.lean` -/
+
+set_option linter.unusedSimpArgs false in
+/-- the DEP_REQ case of the Target state machine of C04 (repaired variant F41) is the reference decision -/
+theorem tRxActive_dep_eq (c : Cfg) (t : TState) (fmt rpni : Nat) (did nad : Option Nat) (data : Bytes)
+    (hf41 : c.v.f41 = true) (hdid : did = c.tdid) :
+    tRx.tRxActive c t (.dep fmt rpni did nad data)
+      = match tgtDecide fmt rpni t.pni t.rtoxPending with
+        | .atn => (t, some (.dep fATN 0 c.tdid none []))
+        | .resend => (t, t.depRes)
+        | .accept => tAccept c t fmt rpni data := by
+  unfold tRx.tRxActive tgtDecide fATN fNAK fTOX
+  have h0 : ¬ ((Pdu.dep fmt rpni did nad data).didAttr ≠ c.tdid) := by simp [Pdu.didAttr, hdid]
+  simp only [h0, if_false, hf41, true_and]
+  by_cases h1 : fmt = 8
+  · simp [h1]
+  · by_cases h2 : fmt = 5
+    · simp [h1, h2]
+    · by_cases h3 : fmt = 9
+      · cases hp : t.rtoxPending <;> simp [h1, h2, h3, hp]
+      · by_cases h4 : t.pni = some rpni <;> simp [h1, h2, h3, h4]
+
+set_option linter.unusedSimpArgs false in
+/-- the regenerated dispatch chain of `send_dep_res_recv_dep_req` takes the reference decision: ATN -> `res = ATN(..)`,
+resend -> `res = dep_res`, accept -> `dep_req = req`; `rtoxPending` is `dep_res is not None and dep_res.pfb.fmt == 9` -/
+theorem tgt_dep_dispatch_bridge (res dep_res dep_req : Option Int) (req : Int) (fmt rpni pni drf : Nat)
+    (did nad : Option Int) (mk : Option Int → Option Int → Option Int) :
+    Gen.Fn.dep_tgt_dep_dispatch res dep_res dep_req req (fmt : Int) (rpni : Int) (pni : Int) (drf : Int) did nad mk
+      = match tgtDecide fmt rpni (some pni) (dep_res.isSome && decide (drf = fTOX)) with
+        | .atn => (mk did nad, dep_req)
+        | .resend => (dep_res, dep_req)
+        | .accept => (res, some req) := by
+  unfold Gen.Fn.dep_tgt_dep_dispatch tgtDecide fATN fNAK fTOX
+  have e8 : ((fmt : Int) = 8) ↔ fmt = 8 := by omega
+  have e5 : ((fmt : Int) = 5) ↔ fmt = 5 := by omega
+  have e9 : ((fmt : Int) = 9) ↔ fmt = 9 := by omega
+  have ed : ((drf : Int) = 9) ↔ drf = 9 := by omega
+  have ep : ((rpni : Int) = (pni : Int)) ↔ rpni = pni := by omega
+  simp only [e8, e5, e9, ed, ep]
+  by_cases h1 : fmt = 8
+  · simp [h1]
+  · by_cases h2 : fmt = 5
+    · simp [h1, h2]
+    · by_cases h3 : fmt = 9
+      · cases dep_res with
+        | none => simp [h1, h2, h3]
+        | some x => by_cases hd : drf = 9 <;> simp [h1, h2, h3, hd]
+      · by_cases h4 : rpni = pni
+        · simp [h1, h2, h3, h4]
+        · have h4' : ¬ (some pni = some rpni) := by intro h; injection h with h; exact h4 h.symm
+          simp [h1, h2, h3, h4, h4']
+
+/-- C04 (exactly once): through the regenerated chain a duplicate request leaves `dep_req` alone and selects the saved
+response; a new request becomes `dep_req` -/
+theorem gen_tgt_duplicate_resent (res dep_res : Option Int) (req : Int) (fmt pni drf : Nat) (did nad : Option Int)
+    (mk : Option Int → Option Int → Option Int) (h1 : fmt ≠ fATN) (h3 : fmt ≠ fTOX) :
+    Gen.Fn.dep_tgt_dep_dispatch res dep_res none req (fmt : Int) (pni : Int) (pni : Int) (drf : Int) did nad mk
+      = (dep_res, none) := by
+  rw [tgt_dep_dispatch_bridge, duplicate_resent fmt pni _ h1 h3]
+
+example : Gen.Fn.dep_tgt_dep_dispatch none (some 7) none 42 0 1 0 0 none none (fun _ _ => some 9) = (none, some 42) := by
+  decide +kernel
+example : Gen.Fn.dep_tgt_dep_dispatch none (some 7) none 42 0 1 1 0 none none (fun _ _ => some 9) = (some 7, none) := by
+  decide +kernel
 
 /-! ## NFCID3 of the Target, its SENSF_RES, and what the Initiator takes from it -/
 
